@@ -99,8 +99,13 @@ var borrows = map[string][]borrow{
 		{"C17", "C17.R1|AddNewJob|the job id", "C03.R9", "a create request cannot touch another account's job: the id asked about is the id written (decided by the rule C17.R1)", 1},
 		{"C16", "C16.R5|validateCreateDenom|", "C03.R10", "a create request cannot re-create (and thereby take back) a denomination that exists: existence is asked for the very name being created (decided by the rule C16.R5)", 2},
 	},
+	"C04": {{"C07", "C07.R5|attestMessageWrapper|the message is removed on the cached context", "C04.R7", "a message leaves the queue together with its effects: it is removed on the cached context that carries them (decided by the rule C07.R5)", 1}},
 	"C13": {{"C04", "C04.R3|AddEvidence|", "C13.R4", "the 10 % floor counts each attesting validator once: a validator's evidence entry is replaced, never duplicated (VerifyEvidence adds a validator's shares once per entry); decided by the rule C04.R3", 1}},
-	"C15": {{"C01", "C01.R3|(x/skyway/keeper.Keeper).RemoveFromOutgoingPoolAndRefund", "C15.R6", "the tax recorded with the transfer is what a cancellation returns: the refund is the stored amount plus the stored tax, not a recomputation under the current settings; decided by the rule C01.R3", 1}},
+	"C16": {{"C03", "C03.R2|AnteHandle|", "C16.R9", "the admin check compares the admin with Metadata.Creator, which is only as good as the ante decorator that ties the creator of each message to that message's signers or grantees (decided by the rule C03.R2)", 2}},
+	"C15": {
+		{"C01", "C01.R3|(x/skyway/keeper.Keeper).OutgoingTxBatchExecuted", "C15.R7", "the tax recorded with the transfers of a batch is burned with them on execution (decided by the rule C01.R3)", 1},
+		{"C01", "C01.R3|(x/skyway/keeper.Keeper).RemoveFromOutgoingPoolAndRefund", "C15.R6", "the tax recorded with the transfer is what a cancellation returns: the refund is the stored amount plus the stored tax, not a recomputation under the current settings; decided by the rule C01.R3", 1},
+	},
 }
 
 var lenderMemo = map[string]*Result{}
